@@ -112,6 +112,7 @@ type RuleResult struct {
 }
 
 func runRule(p *Prog, r *Rule, tier, arch string) (res RuleResult) {
+	curProg = p // the helper-transparency layer consults the program under analysis
 	ctx := &RuleCtx{P: p, Rule: r, Tier: tier}
 	res.Rule = r
 	res.Arch = arch
